@@ -22,6 +22,30 @@ use std::panic::AssertUnwindSafe;
 use std::sync::{Arc, Mutex};
 
 /// the input alphabet of one format: (label, text)
+/// thorough tier: further partial / failing inputs
+pub fn alphabet_thorough(f: &F) -> Vec<(&'static str, String)> {
+    let mut v = alphabet(f);
+    let e = f.e;
+    let s = &e.sentence;
+    let t = &e.task;
+    let c = &e.compound;
+    v.extend(vec![
+        ("budget-unterminated", format!("{}0.5", t.budget_brackets.0)),
+        ("budget-open-only", t.budget_brackets.0.to_string()),
+        ("truth-unterminated", format!("a{} {}1", s.punctuation_judgement, s.truth_brackets.0)),
+        ("truth-three-values", format!("a{} {}1{}1{}1{}", s.punctuation_judgement, s.truth_brackets.0, s.truth_separator, s.truth_separator, s.truth_brackets.1)),
+        ("stamp-garbage", format!("a{} {}x{}", s.punctuation_judgement, s.stamp_brackets.0, s.stamp_brackets.1)),
+        ("fixed-stamp-no-number", format!("a{} {}{}", s.punctuation_judgement, s.stamp_brackets.0, s.stamp_fixed)),
+        ("two-punctuations", format!("a{}{}", s.punctuation_judgement, s.punctuation_goal)),
+        ("budget-budget", format!("{}{} {}{} a{}", t.budget_brackets.0, t.budget_brackets.1, t.budget_brackets.0, t.budget_brackets.1, s.punctuation_judgement)),
+        ("set-unterminated", format!("{}a{} b1", c.brackets_set_extension.0, c.separator)),
+        ("empty-compound", format!("{}{}{}{}", c.brackets.0, c.connecter_product, c.separator, c.brackets.1)),
+        ("image-without-placeholder", format!("{}{}{} a{}", c.brackets.0, c.connecter_image_extension, c.separator, c.brackets.1)),
+        ("interval-overflow", format!("{}99999999999999999999999", e.atom.prefix_interval)),
+    ]);
+    v
+}
+
 pub fn alphabet(f: &F) -> Vec<(&'static str, String)> {
     let e = f.e;
     let s = &e.sentence;
@@ -253,14 +277,14 @@ pub fn run(run: &Run) {
          filled term, unterminated brackets, empty, garbage); stateright BFS over the residue of \
          the real reused parser to a fixpoint, every transition compared with a fresh parse; every \
          explored history replayed through the public parse_multi; hook-free sweep of ALL input \
-         sequences of length <= 2 (3 thorough) through parse_multi; parse_chars vs parse; repeated \
+         sequences of length <= 2 (4 thorough, over a 38-input alphabet) through parse_multi; parse_chars vs parse; repeated \
          parse; lexical parse / parse_term sequences on the shared static formats; distinct = \
          distinct residues reached + distinct sequences swept",
     );
     run.assume("merging histories with equal mid_result is sound because reset_to overwrites env, len_env and head, and format is constant");
     let tier = run.tier;
     for f in fmts::all() {
-        let alpha = alphabet(&f);
+        let alpha = if tier == Tier::Thorough { alphabet_thorough(&f) } else { alphabet(&f) };
         let fresh: Vec<Result<CV, ()>> = alpha.iter().map(|(_, s)| outcome(&ops::parse_enum(&f, s))).collect();
         run.bound(&format!("alphabet_{}", f.name), json!(alpha.len()));
         run.sample(json!({"format": f.name, "alphabet": alpha.iter().map(|(n, s)| format!("{n}: {s}")).collect::<Vec<_>>()}));
@@ -320,7 +344,7 @@ pub fn run(run: &Run) {
             }
         });
         // hook-free sweep of all sequences up to length L
-        let l = tier.pick(2usize, 3usize);
+        let l = tier.pick(2usize, 4usize);
         run.bound("hook_free_sequence_length", json!(l));
         let n = alpha.len();
         let total: usize = (1..=l).map(|k| n.pow(k as u32)).sum();
@@ -364,5 +388,4 @@ pub fn run(run: &Run) {
             }
         }
     }
-    let _ = Tier::Quick;
 }
